@@ -15,6 +15,15 @@ WORK = os.path.join(ROOT, ".work")
 EVID = os.path.join(ROOT, "evidence")
 REPLAYS = os.path.join(ROOT, "replays")
 KNOWN = os.path.join(ROOT, "known_findings.json")
+# Seeded-change trials only (tools/try_seed_alt.sh): VERIF_ALT names a directory holding a copy of the harness workspace
+# whose path dependencies point to a scratch copy of /repo; evidence, replays and scratch data of such a run go there
+# too, so that it can run next to the registered checks. The registered checks never set it.
+_ALT = os.environ.get("VERIF_ALT")
+if _ALT:
+    HARNESS = os.path.join(_ALT, "harness")
+    WORK = os.path.join(_ALT, "work")
+    EVID = os.path.join(_ALT, "evidence")
+    REPLAYS = os.path.join(_ALT, "replays")
 
 
 class ToolError(Exception):
@@ -135,6 +144,7 @@ def tlc_mc(module, cfg, wd, workers=8, timeout=1800, coverage=False):
     st["secs"] = round(dt, 1)
     violated = re.findall(r"Error: Invariant (\S+) is violated", out) + \
         re.findall(r"Error: Action property (\S+) is violated", out) + \
+        re.findall(r"Error: Temporal property (\S+) was violated", out) + \
         re.findall(r"Error: Temporal properties were violated", out)
     st["violated"] = violated
     st["ok"] = ("Model checking completed. No error has been found." in out)
